@@ -507,4 +507,173 @@ theorem stepP_send_present (id : PayId) (st : PState) (ps : List PartId) (hst : 
     stepP id st (.send ps) = (st, { dup := true }) := by
   cases st <;> simp_all [stepP]
 
+
+/-! ### restart: an entry that still knows about a claimed HTLC never turns into PaymentFailed -/
+
+/-- `truth p` = the HTLC of part `p` was (or will be) resolved by the recipient's claim.
+    `Good`: the entry is gone, or fulfilled, or still holds a part whose HTLC was claimed -/
+def Good (truth : PartId → Bool) (st : PState) : Prop :=
+  st = .absent ∨ st.isFulfilled = true ∨ ∃ p ∈ st.parts, truth p = true
+
+/-- what the environment may do to this payment: no fresh send of the same id, and HTLC resolutions
+    (live or replayed from monitors) that agree with the ground truth -/
+def POkFor (truth : PartId → Bool) : POp → Prop
+  | .send _ | .await _ => False
+  | .insert p | .claim p _ => truth p = true
+  | .fail p _ _ => truth p = false
+  | _ => True
+
+def OkFor (truth : PartId → Bool) (id : PayId) : Op → Prop
+  | .send i _ | .await i _ => i ≠ id
+  | .insert i p | .claim i p _ => i = id → truth p = true
+  | .fail i p _ _ => i = id → truth p = false
+  | _ => True
+
+theorem mem_removePart_of_ne (p q : PartId) (ps : List PartId) (hq : q ∈ ps) (hne : q ≠ p) : q ∈ removePart p ps := by
+  simp [removePart, hq, hne]
+
+theorem good_step (truth : PartId → Bool) (id : PayId) (st : PState) (pop : POp) (hg : Good truth st)
+    (hok : POkFor truth pop) :
+    Good truth (stepP id st pop).1 ∧ nFailed id (stepP id st pop).2.evs = 0 := by
+  rcases hg with rfl | hf | ⟨q, hq, hqt⟩
+  · cases pop <;> simp_all [stepP, Good, POkFor, nFailed, PState.isFulfilled, PState.parts]
+  · cases st <;> simp [PState.isFulfilled] at hf
+    cases pop <;> simp only [stepP] <;> (repeat' split) <;>
+      simp_all [Good, POkFor, nFailed, isFailedFor, PState.isFulfilled]
+  · cases st <;> simp only [PState.parts, List.not_mem_nil] at hq
+    case fulfilled ps t =>
+      cases pop <;> simp only [stepP] <;> (repeat' split) <;>
+        simp_all [Good, POkFor, nFailed, isFailedFor, PState.isFulfilled]
+    case retryable ps =>
+      have hne : ps ≠ [] := fun e => by simp [e] at hq
+      cases pop <;> simp only [stepP, abandonNow] <;> (repeat' split) <;>
+        simp_all [Good, POkFor, nFailed, isFailedFor, PState.isFulfilled, PState.parts]
+      all_goals
+        have hqne : ∀ x, truth x = false → q ≠ x := fun x hx e => by subst e; rw [hqt] at hx; cases hx
+        first
+          | exact ⟨q, hq, hqt⟩
+          | exact ⟨q, Or.inl hq, hqt⟩
+          | exact ⟨q, mem_removePart_of_ne _ _ _ hq (hqne _ ‹truth _ = false›), hqt⟩
+          | (have h1 := mem_removePart_of_ne _ q ps hq (hqne _ ‹truth _ = false›); simp_all)
+    case abandoned ps r =>
+      have hne : ps ≠ [] := fun e => by simp [e] at hq
+      cases pop <;> simp only [stepP, abandonNow] <;> (repeat' split) <;>
+        simp_all [Good, POkFor, nFailed, isFailedFor, PState.isFulfilled, PState.parts]
+      all_goals
+        have hqne : ∀ x, truth x = false → q ≠ x := fun x hx e => by subst e; rw [hqt] at hx; cases hx
+        first
+          | exact ⟨q, hq, hqt⟩
+          | exact ⟨q, Or.inl hq, hqt⟩
+          | exact ⟨q, mem_removePart_of_ne _ _ _ hq (hqne _ ‹truth _ = false›), hqt⟩
+          | (have h1 := mem_removePart_of_ne _ q ps hq (hqne _ ‹truth _ = false›); simp_all)
+
+
+theorem okFor_proj (truth : PartId → Bool) (id : PayId) (s : State) (op : Op) (pop : POp)
+    (hok : OkFor truth id op) (hp : proj id s op = some pop) : POkFor truth pop := by
+  cases op <;> simp only [proj] at hp <;> simp only [OkFor] at hok
+  all_goals first
+    | (cases hp; done)
+    | (cases hp; trivial)
+    | (split at hp
+       · cases hp; first | exact hok ‹_› | trivial | (exact absurd ‹_› hok)
+       · cases hp)
+
+theorem snap_step (s : State) (op : Op) (hop : op ≠ .persist) : (step s op).1.snapCur = s.snapCur := by
+  cases op <;> first | rfl | contradiction
+
+theorem good_global_step (truth : PartId → Bool) (id : PayId) (s : State) (op : Op) (hwf : WF s)
+    (hc : Good truth (get s.cur id)) (hs : Good truth (get s.snapCur id)) (hok : OkFor truth id op) :
+    Good truth (get (step s op).1.cur id) ∧ Good truth (get (step s op).1.snapCur id) ∧
+    nFailed id (step s op).2.evs = 0 := by
+  by_cases hr : op = .restore
+  · subst hr; exact ⟨hs, hs, rfl⟩
+  by_cases hpz : op = .persist
+  · subst hpz; exact ⟨hc, hc, rfl⟩
+  rw [snap_step s op hpz, step_get s op id hr, nFailed_step s op id hwf]
+  unfold projStep
+  cases hp : proj id s op with
+  | none => exact ⟨hc, hs, rfl⟩
+  | some pop =>
+    have := good_step truth id _ pop hc (okFor_proj truth id s op pop hok hp)
+    exact ⟨this.1, hs, this.2⟩
+
+theorem good_run (truth : PartId → Bool) (id : PayId) : ∀ (ops : List Op) (s : State), WF s →
+    Good truth (get s.cur id) → Good truth (get s.snapCur id) → (∀ op ∈ ops, OkFor truth id op) →
+    nFailed id (run s ops).2 = 0 := by
+  intro ops
+  induction ops with
+  | nil => intro s _ _ _ _; rfl
+  | cons op rest ih =>
+    intro s hwf hc hs hok
+    obtain ⟨h1, h2, h3⟩ := good_global_step truth id s op hwf hc hs (hok op (by simp))
+    rw [run_cons, nFailed_append, h3, Nat.zero_add]
+    exact ih _ (wf_step s op hwf) h1 h2 (fun o ho => hok o (List.mem_cons_of_mem _ ho))
+
+/-- PaymentSent is only ever pushed by a `claim_htlc` for that id (whatever else happens, restarts included) -/
+theorem sent_needs_claim (id : PayId) : ∀ (ops : List Op) (s : State), WF s →
+    nSent id (run s ops).2 > 0 → ∃ p oc, Op.claim id p oc ∈ ops := by
+  intro ops
+  induction ops with
+  | nil => intro s _ h; simp [run_nil, nSent_nil] at h
+  | cons op rest ih =>
+    intro s hwf h
+    rw [run_cons, nSent_append] at h
+    by_cases h0 : nSent id (step s op).2.evs = 0
+    · rw [h0, Nat.zero_add] at h
+      obtain ⟨p, oc, hm⟩ := ih _ (wf_step s op hwf) h
+      exact ⟨p, oc, List.mem_cons_of_mem _ hm⟩
+    · rw [nSent_step s op id hwf] at h0
+      unfold projStep at h0
+      cases hp : proj id s op with
+      | none => simp [hp, nSent_nil] at h0
+      | some pop =>
+        simp only [hp] at h0
+        cases pop with
+        | claim p oc =>
+          refine ⟨p, oc, ?_⟩
+          cases op <;> simp only [proj] at hp <;> (try split at hp) <;> simp_all
+        | _ =>
+          exfalso; apply h0
+          cases (get s.cur id) <;> simp only [stepP, abandonNow] <;> (repeat' split) <;> simp [nSent]
+
+
+/-- the five ways one payment instance can look after any of its prefixes -/
+theorem instance_cases (id : PayId) (s : State) (ops : List Op) (h : Instance id s ops) :
+    let st := get (run s ops).1.cur id
+    let nS := nSent id (run s ops).2
+    let nF := nFailed id (run s ops).2
+    let ch := claimHits id s ops
+    (st = .absent ∧ ¬ Started id s ops ∧ nS = 0 ∧ nF = 0 ∧ ch = false) ∨
+    (st = .absent ∧ Started id s ops ∧ nS + nF = 1 ∧ (nS = 1 ↔ ch = true)) ∨
+    ((∃ t, st = .preHtlc t) ∧ nS = 0 ∧ nF = 0 ∧ ch = false) ∨
+    ((∃ ps, st = .retryable ps) ∧ nS = 0 ∧ nF = 0 ∧ ch = false) ∨
+    ((∃ ps r, st = .abandoned ps r ∧ ps ≠ []) ∧ nS = 0 ∧ nF = 0 ∧ ch = false) ∨
+    ((∃ ps t, st = .fulfilled ps t) ∧ nS = 1 ∧ nF = 0 ∧ ch = true) := by
+  intro st nS nF ch
+  have hsum := instance_summary id s ops h
+  cases hst : get (run s ops).1.cur id with
+  | absent =>
+    by_cases hs : Started id s ops
+    · exact Or.inr (Or.inl ⟨hst, hs, ((hsum.2 hst).1 hs).1, ((hsum.2 hst).1 hs).2⟩)
+    · exact Or.inl ⟨hst, hs, (hsum.2 hst).2 hs⟩
+  | preHtlc t =>
+    have := hsum.1 (by rw [hst]; simp); rw [hst] at this
+    exact Or.inr (Or.inr (Or.inl ⟨⟨t, hst⟩, this⟩))
+  | retryable ps =>
+    have := hsum.1 (by rw [hst]; simp); rw [hst] at this
+    exact Or.inr (Or.inr (Or.inr (Or.inl ⟨⟨ps, hst⟩, this⟩)))
+  | abandoned ps r =>
+    have := hsum.1 (by rw [hst]; simp); rw [hst] at this
+    exact Or.inr (Or.inr (Or.inr (Or.inr (Or.inl ⟨⟨ps, r, hst, this.2.2.2⟩, this.1, this.2.1, this.2.2.1⟩))))
+  | fulfilled ps t =>
+    have := hsum.1 (by rw [hst]; simp); rw [hst] at this
+    exact Or.inr (Or.inr (Or.inr (Or.inr (Or.inr ⟨⟨ps, t, hst⟩, this⟩))))
+
+instance decStays (id : PayId) : ∀ (s : State) (ops : List Op), Decidable (StaysPresent id s ops)
+  | _, [] => isTrue trivial
+  | _, [_] => isTrue trivial
+  | s, op :: op' :: rest =>
+    have := decStays id (step s op).1 (op' :: rest)
+    by unfold StaysPresent present; exact inferInstance
+
 end Ldk.OutboundPay
